@@ -307,7 +307,7 @@ pub fn run(ctx: &Ctx) {
         },
         check_conv,
     );
-    let n = t.pick(300_000u64, 3_000_000);
+    let n = t.pick(300_000u64, 10_000_000);
     ctx.generated("near-limits", "conv", n, "LIMIT + {-2..2} + fraction, assorted scales", near_limit_strategy, check_conv);
     ctx.generated("pushed-past-limit", "conv", n, "floor(LIMIT/10^k) (+1) with scale -k, k in 1..25", pushed_strategy, check_conv);
     ctx.generated("free", "conv", n, "1..60 digits, scales -40..40", free_strategy, check_conv);
